@@ -168,6 +168,9 @@ func master() int {
 	if jobs > total {
 		jobs = total
 	}
+	if p.MaxJobs > 0 && jobs > p.MaxJobs {
+		jobs = p.MaxJobs
+	}
 	if jobs < 1 {
 		jobs = 1
 	}
